@@ -119,4 +119,6 @@ Loaded(x) ==
        IF ~r.ok THEN Error
        ELSE [name |-> r.name, dir |-> dir, files |-> x.paths, vv |-> IF Get(x.env, "VV") = "" THEN "none" ELSE x.env["VV"],
              hasvv |-> Has(x.env, "VV")]
+\* LoadModel: the same load, observed through the dictionary it returns (its name, and what ${VV:-none} interpolates to)
+LoadedModel(x) == LET r == Loaded(x) IN IF IsErr(r) THEN Error ELSE [name |-> r.name, vv |-> r.vv]
 =============================================================================
